@@ -636,6 +636,15 @@ class GoExec:
             return self.alloc(st, v, x['t'])
         if x['_'] == 'ParenExpr':
             return self.addr_of(st, x['X'])
+        if x['_'] == 'Ident' and x.get('obj', {}).get('kind') == 'Var' and x['obj'].get('global'):
+            # &packageVariable: an object that exists before the call; dereferencing reads the variable
+            GA = z3.Function('globaladdr', I, I)
+            import zlib
+            ref = GA(z3.IntVal(zlib.crc32((x['obj'].get('pkg', '') + '.' + x['obj']['name']).encode())))
+            st.assume(z3.And(ref > 0, ref < self.TOP0))
+            p = PtrV(ref, x['obj']['t'])
+            p.gobj = x['obj']             # dereferencing reads / writes the package variable itself
+            return p
         if x['_'] == 'Ident' and x.get('obj', {}).get('kind') == 'Var' and not x['obj'].get('global'):
             oid = x['obj']['id']
             boxed = st.meta.get('boxed', {})
@@ -804,6 +813,8 @@ class GoExec:
             st.heap[(tname, fname, i)] = z3.Store(ha, p.ref, t)
 
     def load_ptr(self, st, p):
+        if getattr(p, 'gobj', None) is not None:
+            return self.global_var(st, p.gobj)
         if getattr(p, 'opaque', False):
             raise Unsupported('dereference of an interior pointer (&p.f)')
         tid = p.etid
@@ -813,6 +824,10 @@ class GoExec:
         return self.load_field(st, p, '*' + self.tt[tid]['s'], '', tid)
 
     def store_ptr(self, st, p, v):
+        if getattr(p, 'gobj', None) is not None:
+            self.global_var(st, p.gobj)
+            st.ghost[('global', p.gobj.get('pkg', '') + '.' + p.gobj['name'])] = v
+            return
         if getattr(p, 'opaque', False):
             raise Unsupported('store through an interior pointer (&p.f)')
         tid = p.etid
